@@ -6,7 +6,9 @@ package c11
 import (
 	"encoding/json"
 	"fmt"
+	"math"
 	"strings"
+	"sync"
 	"testing"
 
 	"github.com/paulmach/orb"
@@ -30,7 +32,7 @@ type frame struct {
 func (f frame) w(axis int) float64 { return f.max[axis] - f.min[axis] }
 
 func genFrame(t *rapid.T) frame {
-	kind := rapid.SampledFrom([]string{"unit8", "unit8", "shifted", "shifted", "fine", "fine", "nonsquare", "degenerate", "float", "float"}).Draw(t, "frame")
+	kind := rapid.SampledFrom([]string{"unit8", "decimal", "shifted", "float", "fine", "decimal", "nonsquare", "shifted", "unit8", "degenerate", "fine", "float"}).Draw(t, "frame")
 	origins := []float64{0, 0, -4, -8, 3, -1000, 500.5}
 	sizes := []float64{8, 16, 4, 2, 1, 0.5}
 	f := frame{name: kind}
@@ -59,6 +61,19 @@ func genFrame(t *rapid.T) frame {
 			}
 		}
 		f.min, f.max = orb.Point{ox, oy}, orb.Point{ox + w, oy + h}
+	case "decimal":
+		// non-dyadic decimal / third / seventh edges at several scales and offsets: the
+		// midline formulas (lo+hi)/2, lo+(hi-lo)/2, lo/2+hi/2 round differently here
+		f.float = true
+		for axis := 0; axis < 2; axis++ {
+			den := rapid.SampledFrom([]float64{10, 3, 10, 7}).Draw(t, "den")
+			scale := rapid.SampledFrom([]float64{1, 1, 10, 100, 1e-3, 1e3, 0.01}).Draw(t, "scale")
+			off := rapid.SampledFrom([]float64{0, 0, 1, -5, 1000, -0.5}).Draw(t, "off")
+			k1 := rapid.IntRange(-12, 11).Draw(t, "k1")
+			k2 := k1 + rapid.IntRange(1, 12).Draw(t, "dk")
+			f.min[axis] = off + scale*float64(k1)/den
+			f.max[axis] = off + scale*float64(k2)/den
+		}
 	case "float":
 		f.float = true
 		x := rapid.Float64Range(-1000, 1000).Draw(t, "x0")
@@ -75,20 +90,9 @@ func (f frame) in(t *rapid.T, axis int) float64 {
 	lo, hi := f.min[axis], f.max[axis]
 	if f.float {
 		switch rapid.IntRange(0, 5).Draw(t, "fk") {
-		case 0:
-			// a midline as the tree computes it, up to three levels down
-			l, r := lo, hi
-			c := (l + r) / 2.0
-			for lvl := rapid.IntRange(0, 2).Draw(t, "lvl"); lvl > 0; lvl-- {
-				if rapid.Bool().Draw(t, "side") {
-					l = c
-				} else {
-					r = c
-				}
-				c = (l + r) / 2.0
-			}
-			return c
-		case 1:
+		case 0, 1, 2:
+			return splitCoord(t, lo, hi)
+		case 3:
 			return rapid.SampledFrom([]float64{lo, hi}).Draw(t, "edge")
 		}
 		return rapid.Float64Range(lo, hi).Draw(t, "c")
@@ -96,6 +100,46 @@ func (f frame) in(t *rapid.T, axis int) float64 {
 	den := rapid.SampledFrom([]int{2, 2, 4, 4, 8, 8, 16, 1024}).Draw(t, "den")
 	i := rapid.IntRange(0, den).Draw(t, "i")
 	return lo + (hi-lo)*float64(i)/float64(den)
+}
+
+// mid computes the centre of [lo, hi] by one of the plausible formulas.
+func mid(formula int, lo, hi float64) float64 {
+	switch formula {
+	case 1:
+		return lo + (hi-lo)/2.0
+	case 2:
+		return lo/2.0 + hi/2.0
+	case 3:
+		return hi - (hi-lo)/2.0
+	}
+	return (lo + hi) / 2.0
+}
+
+const nFormulas = 4
+
+// splitCoord returns a value the library may itself compute as a split value
+// inside [lo, hi]: the centre of a cell 0..5 levels down (cells and centre
+// computed with any of the formulas, independently per level), or a neighbour
+// of it one ulp away. Always inside [lo, hi].
+func splitCoord(t *rapid.T, lo, hi float64) float64 {
+	l, r := lo, hi
+	depth := rapid.IntRange(1, 6).Draw(t, "sdepth")
+	c := mid(rapid.IntRange(0, nFormulas-1).Draw(t, "sf"), l, r)
+	for d := 1; d < depth; d++ {
+		if rapid.Bool().Draw(t, "sside") {
+			l = c
+		} else {
+			r = c
+		}
+		c = mid(rapid.IntRange(0, nFormulas-1).Draw(t, "sf"), l, r)
+	}
+	switch rapid.IntRange(0, 4).Draw(t, "sulp") {
+	case 3:
+		c = math.Nextafter(c, math.Inf(-1))
+	case 4:
+		c = math.Nextafter(c, math.Inf(1))
+	}
+	return math.Min(hi, math.Max(lo, c))
 }
 
 // coordinate strictly outside the bound on one axis
@@ -135,7 +179,7 @@ func (f frame) anyPoint(t *rapid.T) orb.Point {
 	return f.inPoint(t)
 }
 
-var filters = []string{"", "", "nil", "even", "odd", "none", "all"}
+var filters = []string{"", "", "nil", "even", "odd", "none", "all", "reeven", "reodd"}
 
 // weights of add / remove / query per profile
 var profiles = map[string][3]int{
@@ -172,10 +216,14 @@ func genOp(t *rapid.T, f frame, prof [3]int) Op {
 		case "point", "ptrpoint":
 			op.Hit = rapid.IntRange(0, 3).Draw(t, "hit") != 0
 		case "filter":
-			op.F = rapid.SampledFrom([]string{"even", "odd", "none", "all"}).Draw(t, "f")
+			op.F = rapid.SampledFrom([]string{"even", "odd", "none", "all", "rmreeven"}).Draw(t, "f")
 		}
 	default:
-		op.K = rapid.SampledFrom([]string{"find", "knn", "knn", "inb", "inb"}).Draw(t, "q")
+		op.K = rapid.SampledFrom([]string{"find", "knn", "knn", "inb", "inb", "noise"}).Draw(t, "q")
+		if op.K == "noise" {
+			op.Sel = rapid.IntRange(0, 1<<16).Draw(t, "sel")
+			return op
+		}
 		op.P = gen.FromPt(f.anyPoint(t))
 		op.F = rapid.SampledFrom(filters).Draw(t, "f")
 		op.Sel = sel("sel")
@@ -237,11 +285,16 @@ func genOp(t *rapid.T, f frame, prof [3]int) Op {
 	return op
 }
 
-func genCase(t *rapid.T) (Case, frame, string, string) {
+// drawCase is the generator of the main property; large=true keeps to the
+// medium and long histories (used where calls must last long enough to overlap).
+func drawCase(t *rapid.T, large bool) (Case, frame, string, string) {
 	f := genFrame(t)
 	profName := rapid.SampledFrom([]string{"grow", "churn", "churn", "drain", "query"}).Draw(t, "profile")
 	prof := profiles[profName]
 	lenClass := rapid.SampledFrom([]string{"short", "short", "short", "medium", "medium", "medium", "medium", "long"}).Draw(t, "len")
+	if large && lenClass == "short" {
+		lenClass = "medium"
+	}
 	lo, hi := 0, 12
 	switch lenClass {
 	case "medium":
@@ -261,7 +314,7 @@ func flushClasses(in info) {
 
 // TestPropHistories: random histories of 0..500 operations.
 func TestPropHistories(t *testing.T) {
-	stats.Assume("coordinates are finite; dyadic classes: multiples of 2^-11 with |v| <= 2^11 (all distance arithmetic exact, equality demanded); float class: |v| <= 5000, reference metric planar.DistanceSquared, minima and ranks compared within 1e-9 relative")
+	stats.Assume("coordinates are finite; dyadic classes: multiples of 2^-11 with |v| <= 2^11 (all distance arithmetic exact, equality demanded); float classes (random and decimal/third/seventh edges): |v| <= 1e5, reference metric planar.DistanceSquared, minima and ranks compared within 1e-9 relative")
 	stats.Assume("k of k-nearest is in 0..n+2 (or 0..8); the distance limit, when given, is >= 0")
 	stats.Assume("stored values are non-nil *item pointers; Add(nil) may return anything but must not change the contents; filters are pure functions of the pointer")
 	stats.Assume("bound queries use boxes with min <= max on both axes (degenerate boxes included)")
@@ -270,8 +323,8 @@ func TestPropHistories(t *testing.T) {
 	} else {
 		stats.Note("walker", "unavailable ("+theWalker.why+"): black-box model comparison only; non-trivial falls back to 'remove followed by add/query'")
 	}
-	stats.Check(t, 24000, 1000000, func(rt *rapid.T) {
-		c, f, prof, lenClass := genCase(rt)
+	stats.Check(t, 14000, 600000, func(rt *rapid.T) {
+		c, f, prof, lenClass := drawCase(rt, false)
 		stats.Class("frame:" + f.name)
 		stats.Class("profile:" + prof)
 		stats.Class("length:" + lenClass)
@@ -280,7 +333,7 @@ func TestPropHistories(t *testing.T) {
 		} else {
 			stats.Class("arithmetic:float (1e-9 relative)")
 		}
-		var kinds [6]int64
+		var kinds [7]int64
 		for _, op := range c.Ops {
 			switch op.K {
 			case "add":
@@ -295,9 +348,11 @@ func TestPropHistories(t *testing.T) {
 				kinds[4]++
 			case "inb":
 				kinds[5]++
+			case "noise":
+				kinds[6]++
 			}
 		}
-		for i, n := range []string{"op:add", "op:addnil", "op:rm", "op:find/matching", "op:knearest", "op:inbound"} {
+		for i, n := range []string{"op:add", "op:addnil", "op:rm", "op:find/matching", "op:knearest", "op:inbound", "op:noise burst"} {
 			stats.ClassN(n, kinds[i])
 		}
 		var in info
@@ -315,6 +370,254 @@ func TestPropHistories(t *testing.T) {
 			}
 		}
 	})
+}
+
+// ---------------------------------------------------------------- class A: concurrency
+
+// TestPropConcurrent: 2..8 INDEPENDENT histories, each building and querying its
+// own tree next to its own model, evaluated at the same time on separate
+// goroutines. Every one of them must still agree with its model: a disagreement
+// means the package keeps state outside the tree (scratch heap, search box or
+// cache in a package-level variable).
+func TestPropConcurrent(t *testing.T) {
+	stats.Check(t, 600, 25000, func(rt *rapid.T) {
+		n := rapid.IntRange(2, 8).Draw(rt, "goroutines")
+		cs := make([]Case, n)
+		for i := range cs {
+			cs[i], _, _, _ = drawCase(rt, true)
+		}
+		stats.Class(fmt.Sprintf("concurrent:%d independent trees", n))
+		var mu sync.Mutex
+		nt := map[int]bool{}
+		stats.TryParallel(rt, "TestPropConcurrent", cs, n, 5, func(i int) error {
+			in, err := runCase(cs[i])
+			if in.nontrivial {
+				mu.Lock()
+				nt[i] = true
+				mu.Unlock()
+			}
+			return err
+		})
+		if len(nt) >= 2 {
+			stats.NonTrivial("conc:" + gen.JSON(cs))
+			if stats.WantSample("concurrent-independent") {
+				stats.Sample("concurrent-independent", cs)
+			}
+		}
+	})
+}
+
+// Shared is a tree built (and checked) by a history, then queried read-only by
+// several goroutines at once, each comparing every answer with the model.
+type Shared struct {
+	Base    Case   `json:"base"`
+	Readers [][]Op `json:"readers"`
+}
+
+func opsDyadic(ops []Op) bool {
+	for _, o := range ops {
+		if !dyadicP(o.P) || !dyadicP(o.P2) || !dyadic(float64(o.Max)) {
+			return false
+		}
+	}
+	return true
+}
+
+// checkShared: sequential replay of the base history with the full oracle, then
+// the readers in parallel (rounds times each) on the same tree.
+func checkShared(sc Shared, rounds int) (bool, error) {
+	e := newEnv(sc.Base)
+	for _, r := range sc.Readers {
+		e.exact = e.exact && opsDyadic(r)
+	}
+	if err := e.replay(sc.Base); err != nil {
+		return e.nontrivial, fmt.Errorf("while building the shared tree (single goroutine): %v", err)
+	}
+	err := stats.ParallelErr(len(sc.Readers), rounds, func(i int) error {
+		return e.reader().readOnly(sc.Readers[i])
+	})
+	if err != nil {
+		return e.nontrivial, err
+	}
+	// and the tree is what it was
+	if err := e.checkContents(str("the concurrent readers")); err != nil {
+		return e.nontrivial, err
+	}
+	return e.nontrivial, e.checkPointBoxes(str("the concurrent readers"))
+}
+
+// TestPropConcurrentReaders: one built tree, 2..8 goroutines issuing checked
+// read-only queries (plain, filtered, re-entrant filters, with and without
+// caller buffers) at the same time.
+func TestPropConcurrentReaders(t *testing.T) {
+	stats.Check(t, 1000, 25000, func(rt *rapid.T) {
+		base, f, _, _ := drawCase(rt, true)
+		n := rapid.IntRange(2, 8).Draw(rt, "goroutines")
+		sc := Shared{Base: base, Readers: make([][]Op, n)}
+		queryOnly := [3]int{0, 0, 1}
+		for i := range sc.Readers {
+			sc.Readers[i] = rapid.SliceOfN(rapid.Custom(func(t *rapid.T) Op { return genOp(t, f, queryOnly) }), 10, 60).Draw(rt, "reader")
+		}
+		stats.Class(fmt.Sprintf("concurrent:%d readers of one tree", n))
+		var nontrivial bool
+		stats.Try(rt, "TestPropConcurrentReaders", sc, func() error {
+			var err error
+			nontrivial, err = checkShared(sc, 8)
+			return err
+		})
+		if nontrivial {
+			stats.NonTrivial("readers:" + gen.JSON(sc))
+			if stats.WantSample("concurrent-readers") && len(base.Ops) < 40 {
+				stats.Sample("concurrent-readers", sc)
+			}
+		}
+	})
+}
+
+// ---------------------------------------------------------------- split values
+
+// splitBounds are tree bounds whose edges are not dyadic, at several scales and offsets.
+var splitBounds = []orb.Bound{
+	{Min: orb.Point{0.3, 0.3}, Max: orb.Point{1.1, 1.1}},
+	{Min: orb.Point{0.1, 0.1}, Max: orb.Point{0.7, 0.7}},
+	{Min: orb.Point{0.1, 0.2}, Max: orb.Point{0.4, 1.3}},
+	{Min: orb.Point{-0.7, 0.9}, Max: orb.Point{0.6, 2.3}},
+	{Min: orb.Point{1.0 / 3, 2.0 / 3}, Max: orb.Point{5.0 / 3, 7.0 / 3}},
+	{Min: orb.Point{-1.0 / 3, -2.0 / 7}, Max: orb.Point{4.0 / 3, 9.0 / 7}},
+	{Min: orb.Point{1000.1, -999.7}, Max: orb.Point{1000.9, -999.2}},
+	{Min: orb.Point{3e-4, 7e-4}, Max: orb.Point{1.1e-3, 1.9e-3}},
+	{Min: orb.Point{130, 270}, Max: orb.Point{1100, 1900.1}},
+	{Min: orb.Point{12.3, 45.6}, Max: orb.Point{78.9, 101.2}},
+	{Min: orb.Point{-73.98513, 40.74844}, Max: orb.Point{-73.96731, 40.76417}},
+	{Min: orb.Point{0.8240753173828125e-7 + 0.1, 2.718281828459045}, Max: orb.Point{3.141592653589793, 31.41592653589793}},
+}
+
+// TestEnumSplitValues places points exactly on the values the library may
+// compute as cell centres — by each plausible formula, at depth 1..6, and their
+// one-ulp neighbours — below an occupied chain of ancestor nodes, and asks for
+// them with boxes whose edges are exactly at those coordinates and their
+// neighbours, with Find / KNearest / Matching at them and Remove by point.
+func TestEnumSplitValues(t *testing.T) {
+	var idx, size int64
+	maxDepth, paths := 4, 2
+	if stats.Thorough() {
+		maxDepth, paths = 6, 4
+	}
+	for bi, b := range splitBounds {
+		for depth := 1; depth <= maxDepth; depth++ {
+			for path := 0; path < paths; path++ {
+				for cellF := 0; cellF < nFormulas; cellF++ {
+					for lastF := 0; lastF < nFormulas; lastF++ {
+						for ulp := -1; ulp <= 1; ulp++ {
+							for axes := 0; axes < 3; axes++ { // 0: x on the split value, 1: y, 2: both
+								idx++
+								size++
+								if !stats.Mine(idx) {
+									continue
+								}
+								c := splitCase(b, depth, path, cellF, lastF, ulp, axes)
+								stats.Eval("TestEnumSplitValues", 1)
+								stats.Class(fmt.Sprintf("split:depth %d", depth))
+								var in info
+								stats.TryT(t, "TestEnumSplitValues", c, func() error {
+									var err error
+									in, err = runCase(c)
+									return err
+								})
+								if bi == 0 && path == 0 && ulp == 0 && axes == 2 && stats.WantSample("split-values") {
+									stats.Sample("split-values", c)
+								}
+								stats.NonTrivial(fmt.Sprintf("split %d %d %d %d %d %d %d", bi, depth, path, cellF, lastF, ulp, axes))
+								_ = in
+							}
+						}
+					}
+				}
+			}
+		}
+	}
+	stats.Subspace(fmt.Sprintf("split values: %d non-dyadic tree bounds x cell depth 1..%d x %d descent paths x %d formulas for the cells x %d formulas for the centre x {-1,0,+1} ulp x {x, y, both} axes; target stored below an occupied ancestor chain, probed by boxes with edges at the value and its neighbours, Find, KNearest, Matching, Remove", len(splitBounds), maxDepth, paths, nFormulas, nFormulas), size, true)
+}
+
+// splitCase builds the history for one split-value target.
+func splitCase(b orb.Bound, depth, path, cellF, lastF, ulp, axes int) Case {
+	c := Case{Bound: gen.FromBound(b)}
+	l, r, bo, to := b.Min[0], b.Max[0], b.Min[1], b.Max[1]
+	add := func(p orb.Point) {
+		// clamp into the tree bound
+		p[0] = math.Min(b.Max[0], math.Max(b.Min[0], p[0]))
+		p[1] = math.Min(b.Max[1], math.Max(b.Min[1], p[1]))
+		c.Ops = append(c.Ops, Op{K: "add", P: gen.FromPt(p)})
+	}
+	// occupy the chain: one filler well inside each ancestor cell (levels 0..depth-1)
+	for d := 0; d < depth; d++ {
+		add(orb.Point{l + 0.37*(r-l), bo + 0.41*(to-bo)})
+		if d == depth-1 {
+			break
+		}
+		cx, cy := mid(cellF, l, r), mid(cellF, bo, to)
+		bit := (path >> uint(d%2)) & 1
+		if path >= 2 {
+			bit = (path + d) & 1
+		}
+		// the filler sits at 0.37/0.41 (left/bottom part): descend so that the next cell contains a filler of its own
+		if bit == 0 {
+			r = cx
+		} else {
+			l = cx
+		}
+		if (bit+path/2)&1 == 0 {
+			to = cy
+		} else {
+			bo = cy
+		}
+	}
+	// the target: on the centre of the last chain cell
+	tx, ty := l+0.29*(r-l), bo+0.73*(to-bo)
+	nudge := func(v float64) float64 {
+		switch ulp {
+		case -1:
+			return math.Nextafter(v, math.Inf(-1))
+		case 1:
+			return math.Nextafter(v, math.Inf(1))
+		}
+		return v
+	}
+	if axes == 0 || axes == 2 {
+		tx = nudge(mid(lastF, l, r))
+	}
+	if axes == 1 || axes == 2 {
+		ty = nudge(mid(lastF, bo, to))
+	}
+	target := orb.Point{math.Min(b.Max[0], math.Max(b.Min[0], tx)), math.Min(b.Max[1], math.Max(b.Min[1], ty))}
+	add(target)
+	// a second pointer at the same place and one more below it
+	add(target)
+	add(orb.Point{l + 0.81*(r-l), bo + 0.13*(to-bo)})
+	tp := gen.FromPt(target)
+	dn := func(v float64) float64 { return math.Nextafter(v, math.Inf(-1)) }
+	up := func(v float64) float64 { return math.Nextafter(v, math.Inf(1)) }
+	lo, hi := gen.FromPt(b.Min), gen.FromPt(b.Max)
+	q := func(op Op) { c.Ops = append(c.Ops, op) }
+	for _, ex := range []float64{dn(target[0]), target[0], up(target[0])} {
+		for _, ey := range []float64{dn(target[1]), target[1], up(target[1])} {
+			e := gen.P{gen.F(ex), gen.F(ey)}
+			q(Op{K: "inb", P: lo, P2: e})           // box ending at / next to the value
+			q(Op{K: "inb", P: e, P2: hi, F: "nil"}) // box starting at / next to the value
+			q(Op{K: "inb", P: e, Tgt: "pointbox", F: "reeven"})
+			q(Op{K: "find", P: e})
+			q(Op{K: "knn", P: e, N: 2, MaxK: "abs", Max: gen.F(4 * math.Abs(up(target[0])-target[0])), F: "all"})
+		}
+	}
+	q(Op{K: "noise", Sel: depth*131 + path})
+	q(Op{K: "find", P: tp, F: "odd"})
+	q(Op{K: "knn", P: tp, N: 1, NRel: true, Buf: 2})
+	q(Op{K: "rm", Tgt: "point", P: tp})
+	q(Op{K: "inb", P: tp, Tgt: "pointbox"})
+	q(Op{K: "rm", Tgt: "ptrpoint", P: tp})
+	q(Op{K: "rm", Tgt: "point", P: tp}) // now absent: must report false
+	q(Op{K: "inb", Tgt: "tree"})
+	return c
 }
 
 // ---------------------------------------------------------------- enumeration
@@ -447,9 +750,33 @@ func TestSelfWalker(t *testing.T) {
 }
 
 func TestReplay(t *testing.T) {
-	_, raw, ok := stats.Replaying()
+	name, raw, ok := stats.Replaying()
 	if !ok {
 		t.Skip("no replay file")
+	}
+	switch name {
+	case "TestPropConcurrent":
+		var cs []Case
+		if err := json.Unmarshal(raw, &cs); err != nil {
+			t.Fatal(err)
+		}
+		for k := 0; k < 20; k++ {
+			if err := stats.ParallelErr(len(cs), 50, func(i int) error { return checkCase(cs[i]) }); err != nil {
+				t.Fatalf("replayed concurrent group still fails: %v", err)
+			}
+		}
+		return
+	case "TestPropConcurrentReaders":
+		var sc Shared
+		if err := json.Unmarshal(raw, &sc); err != nil {
+			t.Fatal(err)
+		}
+		for k := 0; k < 20; k++ {
+			if _, err := checkShared(sc, 50); err != nil {
+				t.Fatalf("replayed shared-tree scenario still fails: %v", err)
+			}
+		}
+		return
 	}
 	var c Case
 	if err := json.Unmarshal(raw, &c); err != nil {
